@@ -28,6 +28,8 @@ MUTS = {
  'M7-ustar-template-memcpy-C09': ('C09', 'libarchive/archive_write_set_format_ustar.c', '	memcpy(h, &template_header, 512);\n', ''),
  'M8-newc-memset': ('C11', 'libarchive/archive_write_set_format_cpio_newc.c', '	memset(h, 0, c_header_size);\n', ''),
  'M8b-gnutar-template': ('C11', 'libarchive/archive_write_set_format_gnutar.c', '	memcpy(h, &template_header, 512);\n', ''),
+ 'M8c-ar-memset': ('C11', 'libarchive/archive_write_set_format_ar.c', "	memset(buff, ' ', 60);\n", ''),
+ 'M8d-odc-memset': ('C11', 'libarchive/archive_write_set_format_cpio_odc.c', '	memset(h, 0, sizeof(h));\n', ''),
  'M9-nulls-status': ('C09', 'libarchive/archive_write.c', '''		if (r < ARCHIVE_OK)
 			return (r);
 		length -= to_write;''', '''		length -= to_write;'''),
